@@ -321,16 +321,47 @@ impl<H> WrapHandle<H> {
     }
 }
 
+// Every provided method is forwarded as well: a backend may override `read_to_end`, `read_exact`,
+// `write_all`, ... on its handle types, and a wrapper that only forwards the required methods
+// would silently replace those overrides by the default implementations.
 impl<H: std::io::Read> std::io::Read for WrapHandle<H> {
     fn read(&mut self, buf: &mut [u8]) -> std::io::Result<usize> {
         self.pre("handle.read")?;
         self.inner.read(buf)
+    }
+    fn read_vectored(&mut self, bufs: &mut [std::io::IoSliceMut<'_>]) -> std::io::Result<usize> {
+        self.pre("handle.read")?;
+        self.inner.read_vectored(bufs)
+    }
+    fn read_to_end(&mut self, buf: &mut Vec<u8>) -> std::io::Result<usize> {
+        self.pre("handle.read")?;
+        self.inner.read_to_end(buf)
+    }
+    fn read_to_string(&mut self, buf: &mut String) -> std::io::Result<usize> {
+        self.pre("handle.read")?;
+        self.inner.read_to_string(buf)
+    }
+    fn read_exact(&mut self, buf: &mut [u8]) -> std::io::Result<()> {
+        self.pre("handle.read")?;
+        self.inner.read_exact(buf)
     }
 }
 impl<H: std::io::Write> std::io::Write for WrapHandle<H> {
     fn write(&mut self, buf: &[u8]) -> std::io::Result<usize> {
         self.pre("handle.write")?;
         self.inner.write(buf)
+    }
+    fn write_vectored(&mut self, bufs: &[std::io::IoSlice<'_>]) -> std::io::Result<usize> {
+        self.pre("handle.write")?;
+        self.inner.write_vectored(bufs)
+    }
+    fn write_all(&mut self, buf: &[u8]) -> std::io::Result<()> {
+        self.pre("handle.write")?;
+        self.inner.write_all(buf)
+    }
+    fn write_fmt(&mut self, fmt: std::fmt::Arguments<'_>) -> std::io::Result<()> {
+        self.pre("handle.write")?;
+        self.inner.write_fmt(fmt)
     }
     fn flush(&mut self) -> std::io::Result<()> {
         self.pre("handle.flush")?;
@@ -341,6 +372,18 @@ impl<H: std::io::Seek> std::io::Seek for WrapHandle<H> {
     fn seek(&mut self, pos: std::io::SeekFrom) -> std::io::Result<u64> {
         self.pre("handle.seek")?;
         self.inner.seek(pos)
+    }
+    fn rewind(&mut self) -> std::io::Result<()> {
+        self.pre("handle.seek")?;
+        self.inner.rewind()
+    }
+    fn stream_position(&mut self) -> std::io::Result<u64> {
+        self.pre("handle.seek")?;
+        self.inner.stream_position()
+    }
+    fn seek_relative(&mut self, offset: i64) -> std::io::Result<()> {
+        self.pre("handle.seek")?;
+        self.inner.seek_relative(offset)
     }
 }
 
